@@ -86,8 +86,8 @@ func runC19(c *Ctx) {
 		c.Guarded(fn, "return nil", SuccessReturn(0, ""), G("present", True(`^$`), Cmp(`phi`, ">=", `len\(evList\)`), Cmp(`len\(evList\)`, "<=", `phi`)))
 		item := `evList\[.*\]`
 		c.Guarded(fn, "record the item's hash (item accepted)", CallTo(`^iface:\(types\.Evidence\)\.Hash$`, ""),
-			G("fast check hit, or not committed", True(`^call:\(\*types/evidence\.Pool\)\.fastCheck\(evpool, `+item+`\)$`), False(`^call:\(\*types/evidence\.Pool\)\.isCommitted\(evpool, `+item+`\)$`)),
-			G("fast check hit, or verify == nil", True(`^call:\(\*types/evidence\.Pool\)\.fastCheck\(evpool, `+item+`\)$`), IsNil(`^call:\(\*types/evidence\.Pool\)\.verify\(evpool, `+item+`\)$`)))
+			G("fast check hit, or not committed", True(`^call:\(\*types/evidence\.Pool\)\.(fastCheck|isPending)\(evpool, `+item+`\)$`), False(`^call:\(\*types/evidence\.Pool\)\.isCommitted\(evpool, `+item+`\)$`)),
+			G("fast check hit, or verify == nil", True(`^call:\(\*types/evidence\.Pool\)\.(fastCheck|isPending)\(evpool, `+item+`\)$`), IsNil(`^call:\(\*types/evidence\.Pool\)\.verify\(evpool, `+item+`\)$`)))
 		// duplicate inside the list is an error
 		dup := findInstrs(fn, CallTo(`^\(lib/common\.Hash\)\.Equal$`, ""))
 		c.Check("G", fnName(fn)+"/pairwise duplicate-hash test present", len(dup) == 1, fn.Pos(), len(dup), "")
@@ -99,9 +99,15 @@ func runC19(c *Ctx) {
 			}, Or(CallTo(`^iface:\(types\.Evidence\)\.Hash$`, ""), SuccessReturn(0, "")))
 		}
 	}
-	if fn := c.Fn("types/evidence", "Pool", "fastCheck"); fn != nil {
-		n := len(findInstrs(fn, CallTo(`isPending$`, "")))
-		c.Check("F", fnName(fn)+"/is the pending (already verified) test", n == 1, fn.Pos(), n, "the shortcut may only accept evidence this node verified before")
+	// the shortcut is the pending test, through the one-line wrapper or called directly
+	if c.P.Func("types/evidence", "Pool", "fastCheck") != nil {
+		if fn := c.Fn("types/evidence", "Pool", "fastCheck"); fn != nil {
+			n := len(findInstrs(fn, CallTo(`isPending$`, "")))
+			c.Check("F", fnName(fn)+"/is the pending (already verified) test", n == 1, fn.Pos(), n, "the shortcut may only accept evidence this node verified before")
+		}
+	} else if fn := c.Fn("types/evidence", "Pool", "CheckEvidence"); fn != nil {
+		n := len(findInstrs(fn, CallTo(`^\(\*types/evidence\.Pool\)\.isPending$`, "")))
+		c.Check("F", "(*types/evidence.Pool).fastCheck/is the pending (already verified) test", n == 1, fn.Pos(), n, "the shortcut may only accept evidence this node verified before")
 	}
 	c.OnlyCalledFrom("AddEvidenceFromConsensus only from tryAddVote", `AddEvidenceFromConsensus$`, 1, `^`+csT+`\.tryAddVote$`)
 	c.OnlyCalledFrom("addPendingEvidence only from the three admission paths", `^\(\*types/evidence\.Pool\)\.addPendingEvidence$`, 3, `^\(\*types/evidence\.Pool\)\.(AddEvidence|AddEvidenceFromConsensus|CheckEvidence)$`)
